@@ -80,7 +80,7 @@ def run(tier, seed):
     else:
         step = 5
         cases += exh[rng.randint(0, step - 1)::step]
-    for fam, n in ((g.one_null, 120), (g.two_nulls, 60), (g.single, 80), (g.oddities, 30), (g.balanced, 30)):
+    for fam, n in ((g.one_null, 120), (g.two_nulls, 60), (g.single, 80), (g.oddities, 30), (g.balanced, 30), (g.cancelling, 120)):
         cases += [fam() for _ in range(n * k)]
     fc.run_cases(ctx, cases, fc.oracle_c02)
     fc.report_failures(ctx, fc.oracle_c02)
